@@ -31,6 +31,7 @@ def run(ctx) -> None:
     r6_tracking(ctx)
     r7_walkers(ctx)
     r8_state_conditions(ctx)
+    r9_no_dunder_comparisons(ctx)
 
 
 # ------------------------------------------------------------------------------------------ R1
@@ -444,6 +445,39 @@ def r6_tracking(ctx) -> None:
         else:
             r.violation("C13.R6", f.qual, "detection.detection_items[i] = r; self.processing_item_applied(r)", "a replacement is not marked as applied by this processing item", f.loc)
     r.floor("C13.R6", 4)
+
+
+def r9_no_dunder_comparisons(ctx) -> None:
+    r, prog = ctx.r, ctx.prog
+    r.rule("C13.R9", "conditions compare through operators or the operator module, never by calling a comparison dunder on the value: int.__eq__(5.0) is NotImplemented, which is truthy, so such a condition holds for every operator and value")
+    dunders = {"__eq__", "__ne__", "__lt__", "__le__", "__gt__", "__ge__"}
+    n = 0
+    for f in prog.functions_in("sigma.processing.conditions", "sigma.processing.pipeline"):
+        for c in walk_no_nested(f.node):
+            if not isinstance(c, ast.Call):
+                continue
+            loc = f"{f.module.relpath}:{c.lineno}"
+            if isinstance(c.func, ast.Attribute) and c.func.attr in dunders and not unparse(c.func.value).startswith("super()"):
+                n += 1
+                r.violation("C13.R9", f.qual, short(c, 80), "comparison dunder called directly on a value", loc)
+            elif isinstance(c.func, ast.Call) and call_name(c.func) == "getattr" and len(c.func.args) >= 2:
+                tgt, name = c.func.args[0], c.func.args[1]
+                names = set()
+                if isinstance(name, ast.Constant):
+                    names = {name.value}
+                elif isinstance(name, ast.Subscript):
+                    owner = f.cls.qual if f.cls else None
+                    attr = name.value.attr if isinstance(name.value, ast.Attribute) else None
+                    a = prog.lookup_class_attr(owner, attr) if owner and attr else None
+                    if a is not None and isinstance(getattr(a[1], "value", None), ast.Dict):
+                        names = {v.value for v in a[1].value.values if isinstance(v, ast.Constant)}
+                if names & dunders:
+                    n += 1
+                    if unparse(tgt) == "operator":
+                        r.ok("C13.R9", f.qual, f"{short(c, 70)}: operator-module function (handles NotImplemented by reflection)", loc)
+                    else:
+                        r.violation("C13.R9", f.qual, short(c, 90), f"the comparison method {sorted(names & dunders)[0]}… is looked up on the value {unparse(tgt)} and called directly: for operands of different numeric types it returns NotImplemented (truthy) — the condition is true whatever the operator and the value", loc)
+    r.floor("C13.R9", 1)
 
 
 def r8_state_conditions(ctx) -> None:
